@@ -78,3 +78,112 @@ func zzUpper(s string) string {
 	}
 	return string(b)
 }
+
+// Short forms and arguments. "local" is the local platform; an OS alone takes
+// architecture and variant from the local platform when the local platform can
+// run that OS; an architecture alone takes the local OS; `local/<arch>` takes
+// the local OS; `,osver=<v>` (or `osversion`) sets the OS version and nothing
+// else; a Windows version is filled in from the local platform only for a
+// request the local platform would run. Every result is in normal form, and
+// the selection it leads to is one the local platform can run.
+var zzOSVers = []string{"10.0.17763.1000", "6.1"}
+var zzShortArchs = []string{"amd64", "x86_64", "arm64", "arm"}
+
+func ZZC16_parse_short() {
+	loc := Local()
+	zzReach("local_known")
+	zzAssert(loc.OS == "linux" && loc.Architecture == "amd64", "engine_and_twin_run_on_linux_amd64")
+	form := zzInt("form", 0, 5)
+	osver := ""
+	if zzBool("with_osver") {
+		osver = zzPick("osver", zzOSVers)
+	}
+	key := ",osver="
+	if zzBool("long_key") {
+		key = ",OSVersion="
+	}
+	var s string
+	var wantOS, wantArch string
+	var os, arch, variant string
+	switch form {
+	case 0:
+		s = "local"
+	case 1:
+		os = zzPick("os", zzOSs)
+		s = os
+		wantOS = os
+	case 2:
+		arch = zzPick("arch", zzArchs)
+		s = arch
+		wantOS = loc.OS
+		wantArch = arch
+	case 3:
+		arch, variant = zzPick("arch", zzArchs), zzPick("variant", zzVariants)
+		s = "local/" + arch
+		if variant != "" {
+			s += "/" + variant
+		}
+		wantOS = loc.OS
+		wantArch = arch
+	case 4:
+		os, arch = zzPick("os", zzOSs), zzPick("arch", zzShortArchs)
+		s = os + "/" + arch
+		wantOS, wantArch = os, arch
+	case 5:
+		arch = zzPick("arch", zzShortArchs)
+		s = "/" + arch // empty OS
+	}
+	if form == 5 {
+		// an empty component is not a platform string
+		_, err := Parse(s)
+		zzAssert(err != nil, "empty_component_rejected")
+		return
+	}
+	if osver != "" {
+		s += key + osver
+	}
+	p, err := Parse(s)
+	zzAssert(err == nil, "short_form_parses")
+	zzReach("parsed")
+	if form == 0 {
+		zzAssert(p.OS == loc.OS && p.Architecture == loc.Architecture && p.Variant == loc.Variant, "local_is_the_local_platform")
+	}
+	if wantOS != "" {
+		w := Platform{OS: wantOS}
+		(&w).normalize()
+		zzAssert(p.OS == w.OS, "operating_system_as_requested")
+	}
+	if wantArch != "" {
+		w := Platform{OS: "linux", Architecture: wantArch}
+		(&w).normalize()
+		zzAssert(p.Architecture == w.Architecture, "architecture_as_requested")
+	}
+	if osver != "" && form != 0 {
+		zzAssert(p.OSVersion == osver, "osver_argument_sets_the_version")
+	}
+	if osver == "" && form != 0 {
+		// the local platform is linux: no version is ever invented
+		zzAssert(p.OSVersion == "", "no_version_invented")
+	}
+	if form == 1 {
+		if p.OS == "linux" {
+			zzReach("os_only_local")
+			zzAssert(p.Architecture == loc.Architecture && p.Variant == loc.Variant, "os_alone_expands_to_the_local_machine")
+		} else {
+			// another OS is not run locally: nothing is borrowed from this machine
+			zzAssert(p.Architecture == "" && p.Variant == "", "foreign_os_borrows_nothing")
+		}
+	}
+	if form == 2 && p.Architecture == loc.Architecture {
+		zzAssert(p.Variant == loc.Variant, "local_architecture_alone_takes_the_local_variant")
+	}
+	// normal form
+	n := p
+	(&n).normalize()
+	zzAssert(n.OS == p.OS && n.Architecture == p.Architecture && n.Variant == p.Variant && n.OSVersion == p.OSVersion, "short_form_result_is_normal")
+	// what the parsed platform selects is something it declares compatible with itself
+	zzAssert(Compatible(p, p) || p.Architecture == "", "parsed_platform_runs_itself")
+	if form == 0 || (form == 1 && p.OS == "linux") || (form == 2 && p.Architecture == loc.Architecture && variant == "") {
+		zzAssert(Compatible(loc, p), "short_form_of_this_machine_is_runnable_here")
+	}
+}
